@@ -5,7 +5,7 @@ Require Import JV.Model.HashEnc.
 Import ListNotations.
 Open Scope Z_scope.
 
-Ltac Zify.zify_post_hook ::= Z.to_euclidean_division_equations.
+Ltac dlia := Z.to_euclidean_division_equations; lia.
 
 Definition op_wf (o : op) : Prop :=
   match o with
@@ -139,8 +139,8 @@ Proof.
     try reflexivity.
   - rewrite (take_num_ok 1) by (cbn; lia). reflexivity.
   - rewrite (take_num_ok 2) by (cbn; lia). reflexivity.
-  - rewrite (take_num_ok 4) by (cbn; lia). repeat f_equal.
-    destruct (z mod 4294967296 <? 2147483648) eqn:E; lia.
+  - rewrite (take_num_ok 4) by (cbn; dlia). repeat f_equal.
+    destruct (z mod 4294967296 <? 2147483648) eqn:E; [apply Z.ltb_lt in E|apply Z.ltb_ge in E]; dlia.
   - rewrite <- app_assoc, (take_payload_ok 1) by (cbn; lia). reflexivity.
   - rewrite <- app_assoc, (take_payload_ok 4) by (cbn; lia). reflexivity.
   - unfold be_bytes.
@@ -197,8 +197,8 @@ Proof.
   apply Z.eqb_neq in E0.
   set (L := Z.log2 (Z.abs x)). set (n := (L + 1) / 8 + 1).
   assert (HL : 0 <= L) by apply Z.log2_nonneg.
-  assert (Hn : 1 <= n) by (unfold n; lia).
-  assert (H8n : L + 1 <= 8 * n - 1) by (unfold n; lia).
+  assert (Hn : 1 <= n) by (unfold n; dlia).
+  assert (H8n : L + 1 <= 8 * n - 1) by (unfold n; dlia).
   assert (Habs : Z.abs x < 2 ^ (8 * n - 1)).
   { assert (Hp : 0 < Z.abs x) by lia. destruct (Z.log2_spec (Z.abs x) Hp) as [_ Hlt]. fold L in Hlt.
     eapply Z.lt_le_trans; [exact Hlt|]. apply Z.pow_le_mono_r; lia. }
